@@ -48,7 +48,20 @@ Inductive tok : Set :=
 | NEQ | LEQ | GEQ | MAT | NMAT | LPAREN | LBRACK | LBRACE | COMMA | PERIOD | ELLIPSIS
 | RPAREN | RBRACK | RBRACE | SEMICOLON | COLON | OPTION | TILDE
 | IF | ELSE | FOR | IN | LET | TRY | FALLBACK | OTHERWISE | FUNC | TRUE | FALSE | NULL.
-Scheme Equality for tok.
+
+(* token numbering (the iota values of token.go) and the induced equality test *)
+Definition tok_code (t : tok) : N :=
+  match t with
+  | ILLEGAL => 0 | EOF => 1 | COMMENT => 2 | ATTRIBUTE => 3 | IDENT => 5 | INT => 6 | FLOAT => 7
+  | STRING => 8 | INTERPOLATION => 9 | BOTTOM => 10 | ADD => 13 | SUB => 14 | MUL => 15 | QUO => 17
+  | AND => 18 | OR => 19 | LAND => 20 | LOR => 21 | BIND => 22 | EQL => 23 | LSS => 24 | GTR => 25
+  | NOT => 26 | ARROW => 27 | NEQ => 28 | LEQ => 29 | GEQ => 30 | MAT => 31 | NMAT => 32
+  | LPAREN => 33 | LBRACK => 34 | LBRACE => 35 | COMMA => 36 | PERIOD => 37 | ELLIPSIS => 38
+  | RPAREN => 39 | RBRACK => 40 | RBRACE => 41 | SEMICOLON => 42 | COLON => 43 | OPTION => 44
+  | TILDE => 45 | IF => 48 | ELSE => 49 | FOR => 50 | IN => 51 | LET => 52 | TRY => 53
+  | FALLBACK => 54 | OTHERWISE => 55 | FUNC => 56 | TRUE => 57 | FALSE => 58 | NULL => 59
+  end%N.
+Definition tok_beq (a b : tok) : bool := N.eqb (tok_code a) (tok_code b).
 
 (* scanner.quoteInfo *)
 Record quote : Type := mkQ {
